@@ -69,7 +69,19 @@ def ranking_term(r):
 
 
 def dataset_term(d):
-    return clist([ranking_term(r) for r in d])
+    """list literal; long runs of one and the same ranking are written `repeat r k` (datasets with thousands of copies of a ranking)"""
+    runs = []
+    for r in d:
+        if runs and runs[-1][0] == r:
+            runs[-1][1] += 1
+        else:
+            runs.append([r, 1])
+    if all(k < 50 for _, k in runs):
+        return clist([ranking_term(r) for r in d])
+    parts = []
+    for r, k in runs:
+        parts.append(f"(repeat {ranking_term(r)} {k}%nat)" if k >= 50 else clist([ranking_term(r)] * k))
+    return "(" + " ++ ".join(parts) + ")%list"
 
 
 def cstring(s):
